@@ -11,6 +11,7 @@ module variable are compared with those of the original program, in which the
 call is executed with Fortran's by-reference argument association.
 """
 import os
+import re
 
 from mc.gen import c07_progs as G
 
@@ -452,10 +453,14 @@ def sig_fn(tname, label, key, bad, diag):
     if diag == "by-name":
         return "InlineTrans|actual-arguments-re-evaluated-at-each-use(call-by-name)"
     if diag.startswith("invalid:undeclared("):
+        names, where = diag[len("invalid:undeclared("):].split(")@")
+        if all(re.fullmatch(r"[mn][xyzkir]", name) for name in names.split(",")):
+            # nx / mx ...: the extent arguments of the callee's array dummies
+            return f"InlineTrans|invalid:undeclared-extent-dummy@{where}"
         return f"InlineTrans|{diag}|dummies={kinds}"
     feats = features(key)
     if diag.startswith("wrong[") and feats:
-        return f"InlineTrans|{diag}|{'+'.join(feats)}"
+        return f"InlineTrans|wrong|{'+'.join(feats)}"
     short = ",".join(b.replace("=", "").replace(",", "") for b in bad)
     return f"{label}|{key}|{diag}|bad@{short}"
 
